@@ -294,19 +294,24 @@ func (hs *clientHandshakeStateGM) doFullHandshake() error {
 		ka.encipherCert = c.peerCertificates[1]
 	}
 
+	// GM/T 0024: the ServerKeyExchange carries the signature made with the signing certificate's key over both
+	// randoms and the encryption certificate. It is the only proof that the server holds the signing key, so it
+	// is mandatory for every GMSSL suite.
 	skx, ok := msg.(*serverKeyExchangeMsg)
-	if ok {
-		hs.finishedHash.Write(skx.marshal())
-		err = keyAgreement.processServerKeyExchange(c.config, hs.hello, hs.serverHello, c.peerCertificates[0], skx)
-		if err != nil {
-			c.sendAlert(alertUnexpectedMessage)
-			return err
-		}
+	if !ok {
+		c.sendAlert(alertUnexpectedMessage)
+		return unexpectedMessageError(skx, msg)
+	}
+	hs.finishedHash.Write(skx.marshal())
+	err = keyAgreement.processServerKeyExchange(c.config, hs.hello, hs.serverHello, c.peerCertificates[0], skx)
+	if err != nil {
+		c.sendAlert(alertUnexpectedMessage)
+		return err
+	}
 
-		msg, err = c.readHandshake()
-		if err != nil {
-			return err
-		}
+	msg, err = c.readHandshake()
+	if err != nil {
+		return err
 	}
 
 	var chainToSend *Certificate
